@@ -73,11 +73,13 @@ def _vc_task(args):
     # contracts install their own constructor / attribute models in setup(): restore the import-time state before every task so that a
     # pool worker that has verified one function does not carry its models into the next one
     if not _BASELINE:
-        _BASELINE.update(ctor=dict(models.CONSTRUCTORS), native=list(models.NATIVE_ATTRS))
+        _BASELINE.update(ctor=dict(models.CONSTRUCTORS), native=list(models.NATIVE_ATTRS), ext=dict(models.EXTERNALS))
     else:
         models.CONSTRUCTORS.clear()
         models.CONSTRUCTORS.update(_BASELINE["ctor"])
         models.NATIVE_ATTRS[:] = _BASELINE["native"]
+        models.EXTERNALS.clear()
+        models.EXTERNALS.update(_BASELINE["ext"])
     return contract.run_task(task)
 
 
